@@ -135,6 +135,8 @@ def make_scene(rng, *, gpts=None, roi=None, obj_type=None, num_slices=None, num_
     S = int(num_slices) if num_slices is not None else int(rng.integers(1, 4))
     M = int(num_modes) if num_modes is not None else int(rng.integers(1, 4))
     pad_req = tuple(pad_req) if pad_req is not None else (int(rng.integers(0, 9)), int(rng.integers(0, 9)))
+    # a 1-row (1-column) scan has zero field of view on that axis: the canvas there is 2*pad, which must not be empty
+    pad_req = tuple(max(int(p), 2) if gpts[a] == 1 else int(p) for a, p in enumerate(pad_req))
     energy = float(rng.choice([60e3, 80e3, 200e3, 300e3]))
     lam = ref.electron_wavelength_A(energy)
     samp_draw = (float(rng.uniform(0.2, 0.5)), float(rng.uniform(0.2, 0.5)))
